@@ -1,6 +1,10 @@
 package harness
 
-import "testing"
+import (
+	"testing"
+
+	"verifsim/core"
+)
 
 // Generators per property: a plan from a run seed.
 var Generators = map[string]func(seed uint64) *Plan{
@@ -16,3 +20,23 @@ var Indexed = map[string]func(t *testing.T, i int, seedBase uint64) (*Plan, bool
 
 // Extras per property (additional oracles).
 var Extras = map[string]func(p *Plan) Extra{}
+
+// Runners per property (default: the pipeline Run).
+var Runners = map[string]func(t *testing.T, plan *Plan, st *core.Stream, extra Extra, keepLog bool) *Result{}
+
+// EnumSize per indexed property: number of enumerated cases.
+var EnumSize = map[string]func(t *testing.T) int{}
+
+func RunPlan(t *testing.T, plan *Plan, st *core.Stream, keepLog bool) *Result {
+	if r, ok := Runners[plan.Prop]; ok {
+		return r(t, plan, st, extraFor(plan), keepLog)
+	}
+	return Run(t, plan, st, extraFor(plan), keepLog)
+}
+
+func extraFor(p *Plan) Extra {
+	if f, ok := Extras[p.Prop]; ok {
+		return f(p)
+	}
+	return Extra{}
+}
